@@ -629,6 +629,34 @@ func (a *copyAnalysis) checkStructResult(res ast.Expr, rs *ast.ReturnStmt, st *t
 			continue
 		}
 		r.Add("E5.a-coverage", fn.Name, key, p.Pos(rs), OK, why, false)
+		// (a') the value comes from the receiver's field of the same name
+		if !whole {
+			srcOK := false
+			other := ""
+			for _, x := range as {
+				if x.val == nil {
+					continue
+				}
+				own, oth := a.recvFieldsMentioned(x.val, map[types.Object]bool{})
+				if own[name] {
+					srcOK = true
+				}
+				for o := range oth {
+					if o != name {
+						other = o
+					}
+				}
+			}
+			if srcOK {
+				r.Add("E5.a-source", fn.Name, key, p.Pos(rs), OK, "value is derived from the receiver's field "+name, false)
+			} else {
+				d := "the value assigned to field " + name + " is not derived from the receiver's field " + name
+				if other != "" {
+					d += " (it reads the receiver's field " + other + " instead)"
+				}
+				r.Add("E5.a-source", fn.Name, key, p.Pos(rs), Violated, d, true)
+			}
+		}
 		// (b) aliasing
 		if !needsCopy(f.Type(), 0) {
 			continue
@@ -681,6 +709,53 @@ func (a *copyAnalysis) checkStructResult(res ast.Expr, rs *ast.ReturnStmt, st *t
 			}
 		}
 	}
+}
+
+// recvFieldsMentioned returns the receiver fields an expression reads (following local
+// variables through all their definitions).
+func (a *copyAnalysis) recvFieldsMentioned(e ast.Expr, seen map[types.Object]bool) (map[string]bool, map[string]bool) {
+	own := map[string]bool{}
+	ast.Inspect(e, func(n ast.Node) bool {
+		switch x := n.(type) {
+		case *ast.SelectorExpr:
+			if id, ok := ast.Unparen(x.X).(*ast.Ident); ok && a.info.ObjectOf(id) == a.recv {
+				own[x.Sel.Name] = true
+				return false
+			}
+		case *ast.Ident:
+			o := a.info.ObjectOf(x)
+			v, ok := o.(*types.Var)
+			if !ok || v.IsField() || o == a.recv || seen[o] {
+				return true
+			}
+			seen[o] = true
+			for _, as := range a.fn.Assignments(o) {
+				switch s := as.(type) {
+				case *ast.AssignStmt:
+					for _, rhs := range s.Rhs {
+						m, _ := a.recvFieldsMentioned(rhs, seen)
+						for k := range m {
+							own[k] = true
+						}
+					}
+				case *ast.RangeStmt:
+					m, _ := a.recvFieldsMentioned(s.X, seen)
+					for k := range m {
+						own[k] = true
+					}
+				case *ast.ValueSpec:
+					for _, rhs := range s.Values {
+						m, _ := a.recvFieldsMentioned(rhs, seen)
+						for k := range m {
+							own[k] = true
+						}
+					}
+				}
+			}
+		}
+		return true
+	})
+	return own, own
 }
 
 func elemType(t types.Type) types.Type {
